@@ -590,3 +590,53 @@ mod tests {
         }
     }
 }
+
+#[cfg(feature = "verif")]
+impl ResourcePool {
+    /// Read-only view of the pool for the simulation harness (feature `verif`).
+    pub(crate) fn verif_snapshot(&self) -> crate::internal::worker::resources::verif::PoolSnapshot {
+        use crate::internal::worker::resources::verif::{PoolGroupSnapshot, PoolKind, PoolSnapshot};
+        let frac_vec = |m: &Map<ResourceIndex, ResourceFractions>| {
+            let mut v: Vec<(u32, u32)> = m.iter().map(|(i, f)| (i.as_num(), *f)).collect();
+            v.sort();
+            v
+        };
+        match self {
+            ResourcePool::Empty => PoolSnapshot {
+                kind: PoolKind::Empty,
+                full_size: 0,
+                groups: Vec::new(),
+                sum_free: None,
+            },
+            ResourcePool::Indices(pool) => PoolSnapshot {
+                kind: PoolKind::Indices,
+                full_size: pool.full_size.total_fractions(),
+                groups: vec![PoolGroupSnapshot {
+                    free_indices: pool.indices.iter().map(|i| i.as_num()).collect(),
+                    fractions: frac_vec(&pool.fractions),
+                }],
+                sum_free: None,
+            },
+            ResourcePool::Groups(pool) => PoolSnapshot {
+                kind: PoolKind::Groups,
+                full_size: pool.full_size.total_fractions(),
+                groups: pool
+                    .indices
+                    .iter()
+                    .zip(pool.fractions.iter())
+                    .map(|(i, f)| PoolGroupSnapshot {
+                        free_indices: i.iter().map(|i| i.as_num()).collect(),
+                        fractions: frac_vec(f),
+                    })
+                    .collect(),
+                sum_free: None,
+            },
+            ResourcePool::Sum(pool) => PoolSnapshot {
+                kind: PoolKind::Sum,
+                full_size: pool.full_size.total_fractions(),
+                groups: Vec::new(),
+                sum_free: Some(pool.free.total_fractions()),
+            },
+        }
+    }
+}
